@@ -38,7 +38,7 @@ ASSUME \A gr \in Groups : Core(gr) \subseteq Tokens(gr)
 CtxOf(gr) ==
   CASE gr = "html" -> <<"html_text", "attr_dq", "attr_sq", "attr_unq">>
     [] gr = "js"   -> <<"js_script_dq", "js_file_sq", "json_file">>
-    [] gr = "css"  -> <<"css_style_dq", "css_file_sq">>
+    [] gr = "css"  -> <<"css_style_dq", "css_file_sq", "css_file_dq_tail">>
     [] gr = "url"  -> <<"url_query_dq", "url_path_dq", "url_path_unq">>
 RangeOf(f) == {f[x] : x \in DOMAIN f}
 
